@@ -17,6 +17,8 @@ func runC14(c *Ctx, r *Report) {
 
 	r.Rule("C14.R8", "a literal's value is what its text says: in package parser every store to IntegerLiteral.Val writes the first result of strconv.ParseInt and every store to FloatLiteral.Val the first result of strconv.ParseFloat (no converted unsigned / float parse)")
 	c.checkLiteralValueSources(r, "C14.R8")
+	r.Rule("C14.R9", "what is saved is the global scope: under Environment.SaveGlobals every read of an environment's store is dominated by the `outer == nil` edge of a test on that very environment (the exit of the walk to the root)")
+	c.checkSaveIsGlobal(r, "C14.R9")
 	r.Rule("C14.R7", "auto-save sees every change: every write or delete on an Environment's store map (other than installing a Reference) is accompanied, on every path through it, by an increment of numSet of the same environment under its depth==0 test")
 	c.checkChangeCounter(r, "C14.R7")
 
